@@ -22,6 +22,7 @@ type Env struct {
 	tpkg   *types.Package
 	names  map[string]TV
 	lookup func(name string, st *State) (TV, bool)
+	addrOf func(name string) (string, *addr, types.Type, bool) // heap cell (or local slot) of a captured variable (closures)
 	cur    *State
 	old    *State
 	specBody bool
@@ -148,6 +149,19 @@ func (fc *FnCtx) findPkg(name string, tpkg *types.Package) *types.Package {
 	if tpkg != nil {
 		if tpkg.Name() == name {
 			return tpkg
+		}
+		// import aliases as written in the package's own files
+		if p, ok := fc.eng.Pkgs[tpkg.Path()]; ok {
+			for _, f := range p.Syntax {
+				for _, is := range f.Imports {
+					if is.Name != nil && is.Name.Name == name {
+						path := strings.Trim(is.Path.Value, "\"")
+						if ip, ok := p.Imports[path]; ok && ip.Types != nil {
+							return ip.Types
+						}
+					}
+				}
+			}
 		}
 		for _, im := range tpkg.Imports() {
 			if im.Name() == name {
